@@ -3,6 +3,7 @@ package main
 import (
 	"encoding/json"
 	"os"
+	"regexp"
 	"sort"
 )
 
@@ -102,11 +103,16 @@ type ReplayFile struct {
 	Note      string    `json:"note,omitempty"`
 }
 
+var numArrayRe = regexp.MustCompile(`\[\s*(?:\d+,\s*)*\d+\s*\]`)
+var wsRe = regexp.MustCompile(`\s+`)
+
 func writeJSON(path string, v any) error {
 	b, err := json.MarshalIndent(v, "", " ")
 	if err != nil {
 		return err
 	}
+	// arrays of numbers (tapes, signatures) on one line
+	b = numArrayRe.ReplaceAllFunc(b, func(m []byte) []byte { return wsRe.ReplaceAll(m, nil) })
 	return os.WriteFile(path, append(b, '\n'), 0644)
 }
 
